@@ -15,7 +15,10 @@ CONSTANTS Shapes, IdSets, KeyChoices, CoeffChoices,     \* the original sharing
           RCoeffChoices,         \* coefficients of refreshing polynomials
           KChoices,              \* proof nonces (distributed variant)
           Rounds,                \* number of consecutive refreshes in scenario "ok"
-          RandChoices, Msg, MaxExtra, EMIT
+          RandChoices, Msg, MaxExtra,
+          Sweep,                 \* shape sweeps: everybody or everybody but the largest identifier remains; the t
+                                 \* smallest remaining identifiers sign with their newest shares
+          EMIT
 
 VARIABLES pc, sc
 vars == <<fvars, pc, sc>>
@@ -55,6 +58,7 @@ Plan ==
   /\ \E scen \in Scenarios, proc \in Procs :
        \/ /\ scen = "ok"
           /\ \E R \in SUBSET IdSet : Card(R) >= sc.t /\
+               (Sweep => R \in {IdSet, IdSet \ {sc.ids[sc.n]}}) /\
                \E ord \in (IF proc = "dealer" THEN {"asc", "rot"} ELSE {"asc"}) :    \* the dealer's identifier slice
                sc' = sc @@ [scen |-> scen, R |-> Sorted(R), procs |-> <<proc>>, zsum |-> [i \in IdSet |-> 0],
                             order |-> ord]
@@ -163,7 +167,9 @@ Choose ==
   /\ pc[1] = "choose"
   /\ \E S \in SUBSET IdSet :
        /\ Card(S) >= sc.t /\ Card(S) <= sc.t + MaxExtra
+       /\ Sweep => S = {sc.R[k] : k \in 1..sc.t}
        /\ \E em \in [S -> 0..E] :
+            /\ Sweep => \A i \in S : em[i] = E
             /\ \A i \in S : (i \notin RSet) => em[i] = 0
             /\ \A i \in S : em[i] \in {0, E}           \* original or newest share
             /\ sc' = sc @@ [S |-> Sorted(S), em |-> em]
